@@ -274,7 +274,15 @@ def rand_fst(rng):
         # strings that skipped the first time must not lose it: give them a first value now
         pass
     exponent = rng.choice([-15, -15, -12, -9, -10, -6, -3, -1, 0, 2])
-    opts = {"exponent": exponent, "blocks": sizes, "use_frame": use_frame, "hier": rng.choice(["gz", "lz4"]),
+    # a writer that flushes in the middle of a time step: that step closes one block and opens the next
+    split = {}
+    evs = fg.events(items)
+    p0 = 0
+    for bi, sz in enumerate(sizes):
+        if bi > 0 and len(evs[p0][1]) >= 2 and rng.random() < 0.35:
+            split[str(bi)] = rng.randrange(1, len(evs[p0][1]))
+        p0 += sz
+    opts = {"exponent": exponent, "blocks": sizes, "use_frame": use_frame, "hier": rng.choice(["gz", "lz4"]), "split": split,
             "zlib_values": rng.random() < 0.3, "zlib_times": rng.random() < 0.3, "zlib_geometry": rng.random() < 0.3}
     return items, opts
 
@@ -393,10 +401,10 @@ def write_case(d, k, case):
         fg.write_vcd(path, items)
         return "wobs " + path + (" st" if opts.get("single_thread") else ""), fg.expected_wobs(items)
     if fmt == "fst":
-        fg.write_fst(path, items, **opts)
+        chain = fg.write_fst(path, items, **opts)      # the file's own time chain (a time may be listed twice)
         if case.get("full"):
-            return "wfull " + path, fg.expected_wfull(items, "fst", ts=fst_ts(opts.get("exponent", -15)))
-        return "wobs " + path, fg.expected_wobs(items, ts=fst_ts(opts.get("exponent", -15)))
+            return "wfull " + path, fg.expected_wfull(items, "fst", ts=fst_ts(opts.get("exponent", -15)), time_table=chain)
+        return "wobs " + path, fg.expected_wobs(items, ts=fst_ts(opts.get("exponent", -15)), time_table=chain)
     if fmt == "ghw":
         o = dict(opts)
         if o.get("rounds") is not None:
@@ -478,7 +486,8 @@ def fst_cases(rng, tier):
     cases = []
     for k in range(150 if tier == "quick" else 3000):
         items, opts = rand_fst(rng)
-        cases.append({"fmt": "fst", "spec": _js(to_spec(items)), "opts": opts, "full": True, "klass": "file-fst-random",
+        cases.append({"fmt": "fst", "spec": _js(to_spec(items)), "opts": opts, "full": True,
+                      "klass": "file-fst-random-shared-step" if opts.get("split") else "file-fst-random",
                       "key": ("fst", k) if len(opts["blocks"]) > 1 or opts["use_frame"] else None})
     for w in (2, 3, 5, 6, 7, 9, 10, 11, 13, 14, 15, 17, 33):
         items = scenario_kind_order(rng, w)
